@@ -163,7 +163,9 @@ func (c *ExpressionCalculator) EvaluateUsingVariablesAndFunctions(
 		funcs = c.defaultFunctions
 	}
 
+	verifStep := 0
 	for _, token := range c.ResultTokens() {
+		verifEvalHook(c, &verifStep)
 		if ok, err := c.evaluateConstant(token, stack); ok || err != nil {
 			if err != nil {
 				return nil, err
